@@ -2708,7 +2708,12 @@ impl<'a, R: FileManager> FrontendCtx<'a, R> {
                 self.typeof_expr(expr.as_ref(), false, expr_file)
             }
             AddressedValue::TypeDecl(ts_type, bff_file_name) => {
-                self.extract_type(&ts_type, bff_file_name)
+                // the annotation of a value is written at module level: no type parameter of the
+                // declaration that mentions the value (typeof x inside W<T>) is visible in it
+                let outer = std::mem::take(&mut self.type_application_stack);
+                let res = self.extract_type(&ts_type, bff_file_name);
+                self.type_application_stack = outer;
+                res
             }
             AddressedValue::Enum(ts_enum_decl, bff_file_name) => {
                 self.extract_enum_decl(&ts_enum_decl, bff_file_name)
@@ -2806,7 +2811,9 @@ impl<'a, R: FileManager> FrontendCtx<'a, R> {
                     return self.error(anchor, DiagnosticInfoMessage::CannotConvertExpr);
                 }
                 self.typing_exprs.push(key);
+                let outer = std::mem::take(&mut self.type_application_stack);
                 let base_ty = self.extract_type(ts_type, bff_file_name.clone());
+                self.type_application_stack = outer;
                 self.typing_exprs.pop();
                 let base_ty = base_ty?;
                 let key_ty = Runtype::single_string_const(member);
